@@ -181,6 +181,9 @@ def clientOpts (proto copts : String) : Option (Option (Option (List Opt))) :=
       | some dec => some (some (effectiveOpts dec))
     else some (some (effectiveOpts recs))
 
+/-- the scripted authorities keep a declared scope within the family they were sent. -/
+def declBits (b family : Nat) : Nat := min b (if family == 1 then 32 else 128)
+
 def buildFrom (en f4 f6 m4 m6 nets : String) : Option BuildRes := do
   let en ← parseBool en
   let f4 ← f4.toNat?
@@ -486,11 +489,11 @@ def step (st : State) (w : List String) : State × String :=
       let auth : Option (List Opt) :=
         if decl.startsWith "S" then
           match firstEcs f.fwd, (decl.drop 1).toNat? with
-          | some s, some b => some [.ecs { s with scope := b }]
+          | some s, some b => some [.ecs { s with scope := declBits b s.family }]
           | _, _ => some []
         else if decl.startsWith "T" then
           match firstEcs f.fwd, (decl.drop 1).toNat? with
-          | some s, some b => some [.ecs { s with mask := b, scope := b }]
+          | some s, some b => some [.ecs { s with mask := declBits b s.family, scope := declBits b s.family }]
           | _, _ => some []
         else if decl == "-" then some []
         else (parseOpt decl).map (fun o => [o])
@@ -516,11 +519,11 @@ def step (st : State) (w : List String) : State × String :=
       let auth : Option (List Opt) :=
         if decl.startsWith "S" then
           match firstEcs f.fwd, (decl.drop 1).toNat? with
-          | some s, some b => some [.ecs { s with scope := b }]
+          | some s, some b => some [.ecs { s with scope := declBits b s.family }]
           | _, _ => some []
         else if decl.startsWith "T" then
           match firstEcs f.fwd, (decl.drop 1).toNat? with
-          | some s, some b => some [.ecs { s with mask := b, scope := b }]
+          | some s, some b => some [.ecs { s with mask := declBits b s.family, scope := declBits b s.family }]
           | _, _ => some []
         else if decl == "-" then some []
         else (parseOpt decl).map (fun o => [o])
